@@ -188,6 +188,13 @@ func ojParser() *kind {
 		k.ops = append(k.ops, parseOp("Parse:"+d.class, "valid", d.text, func(i any, b []byte) (any, error) { return P(i).Parse(b) }))
 	}
 	k.ops = append(k.ops, parseOp("ParseReader:object", "valid", validDocs[2].text, func(i any, b []byte) (any, error) { return P(i).ParseReader(bytes.NewReader(b)) }))
+	// every per-call option has its own reset in the reader entry point: the
+	// document on which the option shows, read through the reader with and without it
+	k.ops = append(k.ops,
+		parseOp("ParseReader:big", "valid", validDocs[3].text, func(i any, b []byte) (any, error) { return P(i).ParseReader(bytes.NewReader(b)) }),
+		parseOp("ParseReader:numconv-string", "config", validDocs[3].text, func(i any, b []byte) (any, error) {
+			return P(i).ParseReader(bytes.NewReader(b), ojg.NumConvString)
+		}))
 	for _, d := range invalidDocs {
 		d := d
 		k.ops = append(k.ops, parseOp("Parse:"+d.class, "invalid", d.text, func(i any, b []byte) (any, error) { return P(i).Parse(b) }))
@@ -323,6 +330,13 @@ func genParser() *kind {
 			}
 			return n, err
 		}),
+		parseOp("ParseReader:big", "valid", validDocs[3].text, func(i any, b []byte) (any, error) {
+			n, err := P(i).ParseReader(bytes.NewReader(b))
+			if n == nil {
+				return nil, err
+			}
+			return n, err
+		}),
 		parseOp("ParseReader:read-fails", "aborted", `{"a":[1,2,`, func(i any, b []byte) (any, error) {
 			n, err := P(i).ParseReader(&failReader{data: b, n: len(b)})
 			if n == nil {
@@ -375,6 +389,11 @@ func senParser() *kind {
 	}
 	k.ops = append(k.ops,
 		parseOp("ParseReader:object", "valid", senValid[2].text, func(i any, b []byte) (any, error) { return P(i).ParseReader(bytes.NewReader(b)) }),
+		parseOp("ParseReader:big", "valid", senValid[4].text, func(i any, b []byte) (any, error) { return P(i).ParseReader(bytes.NewReader(b)) }),
+		parseOp("ParseReader:numconv-string", "config", senValid[4].text, func(i any, b []byte) (any, error) {
+			return P(i).ParseReader(bytes.NewReader(b), ojg.NumConvString)
+		}),
+		parseOp("ParseReader:concat", "valid", senValid[5].text, func(i any, b []byte) (any, error) { return P(i).ParseReader(bytes.NewReader(b)) }),
 		parseOp("ParseReader:read-fails", "aborted", `{a:[1 2 "x" +`, func(i any, b []byte) (any, error) { return P(i).ParseReader(&failReader{data: b, n: len(b)}) }),
 		parseOp("Parse:multi-callback", "config", `1 [2] {a:3}`, func(i any, b []byte) (any, error) {
 			var docs []any
@@ -604,6 +623,8 @@ func pooledOj() *kind {
 	}
 	k.ops = append(k.ops,
 		parseOp("Load:object", "valid", validDocs[2].text, func(_ any, b []byte) (any, error) { return oj.Load(bytes.NewReader(b)) }),
+		parseOp("Load:big", "valid", validDocs[3].text, func(_ any, b []byte) (any, error) { return oj.Load(bytes.NewReader(b)) }),
+		parseOp("Load:numconv-string", "config", validDocs[3].text, func(_ any, b []byte) (any, error) { return oj.Load(bytes.NewReader(b), ojg.NumConvString) }),
 		parseOp("Load:read-fails", "aborted", `{"a":[1,2,`, func(_ any, b []byte) (any, error) { return oj.Load(&failReader{data: b, n: len(b)}) }),
 		parseOp("Parse:multi-callback", "config", `1 [2] {"a":3}`, func(_ any, b []byte) (any, error) {
 			var docs []any
@@ -657,6 +678,9 @@ func pooledSen() *kind {
 	}
 	k.ops = append(k.ops,
 		parseOp("ParseReader:object", "valid", senValid[2].text, func(_ any, b []byte) (any, error) { return sen.ParseReader(bytes.NewReader(b)) }),
+		parseOp("ParseReader:big", "valid", senValid[4].text, func(_ any, b []byte) (any, error) { return sen.ParseReader(bytes.NewReader(b)) }),
+		parseOp("ParseReader:numconv-string", "config", senValid[4].text, func(_ any, b []byte) (any, error) { return sen.ParseReader(bytes.NewReader(b), ojg.NumConvString) }),
+		parseOp("Parse:numconv-string", "config", senValid[4].text, func(_ any, b []byte) (any, error) { return sen.Parse(b, ojg.NumConvString) }),
 		parseOp("ParseReader:read-fails", "aborted", `{a:[1 2 "x" +`, func(_ any, b []byte) (any, error) { return sen.ParseReader(&failReader{data: b, n: len(b)}) }),
 		parseOp("Unmarshal:struct", "config", `{a:3 b:x c:[1 2]}`, func(_ any, b []byte) (any, error) {
 			var s sample
